@@ -147,6 +147,11 @@ class Ctx:
         if oracle:
             self.oracle_counts[oracle] += 1
 
+    def run(self) -> None:
+        """One more execution of the code under test inside the current case (for cases holding several executions,
+        each judged by the oracles): counted in `evaluations`, so that the distinct non-trivial executions stay a subset."""
+        self.evaluations += 1
+
     def cls(self, *names: str) -> None:
         for n in names:
             self.classes[n] += 1
@@ -437,7 +442,9 @@ def merge_results(results: list[dict]) -> dict:
 
 def write_evidence(module, tier: str, seed: int, merged: dict, wall_s: float, n_shards: int) -> Path:
     EVIDENCE.mkdir(parents=True, exist_ok=True)
-    nontriv = len(merged["nontrivial"])
+    # distinct non-trivial cases are a subset of the evaluations: a check that records several non-trivial
+    # executions per generated case must count them with Ctx.run(); otherwise count conservatively
+    nontriv = min(len(merged["nontrivial"]), merged["evaluations"])
     coverage = {
         "evaluations": merged["evaluations"],
         "distinct_nontrivial": nontriv,
